@@ -40,12 +40,31 @@ func NewByteReader(r io.Reader) ByteReader {
 
 type byteReader struct {
 	io.Reader
+	// err is the error the underlying reader returned together with a byte: reported by the next call.
+	err error
 }
 
 func (r *byteReader) ReadByte() (byte, error) {
+	if nil != r.err {
+		err := r.err
+		r.err = nil
+		return 0, err
+	}
+
 	var buff = [1]byte{}
-	_, err := r.Read(buff[:])
-	return buff[0], err
+	// a reader may return no byte and no error; like bufio, give up after too many of those.
+	for tries := 0; tries < 100; tries++ {
+		n, err := r.Reader.Read(buff[:])
+		if n > 0 {
+			// the byte counts even when it arrives together with an error (io.EOF for the last byte).
+			r.err = err
+			return buff[0], nil
+		}
+		if nil != err {
+			return 0, err
+		}
+	}
+	return 0, io.ErrNoProgress
 }
 
 // ToReader wrap message to io.Reader
